@@ -685,6 +685,22 @@ func (c *Ctx) dateValueOrigin(v ssa.Value, depth int) string {
 		return "a Date parameter (valid by the type's invariant)"
 	case *ssa.UnOp:
 		if x.Op == token.MUL {
+			// … unless the pointer was converted from a pointer to a structurally identical type: what it points to was
+			// filled in as that other type, by stores this rule does not look at
+			ptr := x.X
+			for i := 0; i < 4; i++ {
+				switch y := ptr.(type) {
+				case *ssa.ChangeType:
+					if !types.Identical(y.X.Type(), y.Type()) {
+						return ""
+					}
+					ptr = y.X
+					continue
+				case *ssa.Convert:
+					return "" // through unsafe.Pointer
+				}
+				break
+			}
 			return "a copy of another Date (valid by the type's invariant)"
 		}
 	case *ssa.Call:
